@@ -261,3 +261,18 @@ def idx_of_upd_value(ps: 'Seq[YPair]', qs: 'Seq[YPair]', j: int, v: 'YNode',
     return implies(qs == upd_value(ps, j, v) and 0 <= j and j < len(ps)
                    and n <= len(ps),
                    idx_of(qs, a, n) == idx_of(ps, a, n))
+
+
+@lemma(induct='n', triggers=['s2m_valid(xs, ka, n)', 's2m_mid(xs, ka, i)'])
+def s2m_valid_at(xs: 'Seq[YNode]', ka: str, i: int, n: int) -> bool:
+    return implies(0 <= i and i < n and s2m_valid(xs, ka, n),
+                   s2m_item_ok(xs[i], ka))
+
+
+@lemma(induct='n', triggers=['s2m_distinct(xs, ka, n)',
+                             's2m_distinct(xs, ka, i)'])
+def s2m_distinct_member(xs: 'Seq[YNode]', ka: str, i: int, n: int) -> bool:
+    return implies(0 <= i and i < n and s2m_distinct(xs, ka, n),
+                   s2m_distinct(xs, ka, i)
+                   and not in_strs(first_value(xs[i], ka).val,
+                                   s2m_seen(xs, ka, i)))
